@@ -137,7 +137,7 @@ SliceOp(g, v, P(_, _, _)) ==
 \* the limits (no free id, bind outside BindOk); join() is never reached on trees.
 RECURSIVE MergeRec(_, _, _, _, _, _), MergeKids(_, _, _, _, _, _, _)
 MergeRec(g, h, left, right, m, lim) ==
-  IF right \in DOMAIN m THEN [g |-> g, m |-> m, lim |-> lim]
+  IF ~lim \/ right \in DOMAIN m THEN [g |-> g, m |-> m, lim |-> lim]
   ELSE LET m1 == (right :> left) @@ m
            g1 == IF h.st[right] # "empty" THEN PutOp(g, left, h.val[right]) ELSE g
        IN MergeKids(g1, h, left, right, m1, 1, lim)
@@ -146,7 +146,8 @@ MergeKids(g, h, left, right, m, i, lim) ==
   ELSE LET a == h.edges[right][i][1]
            to == h.edges[right][i][2]
            k == KidOf(g, left, a)
-           step == IF k # None THEN [g |-> g, t |-> k, lim |-> TRUE]
+           step == IF to \notin h.present THEN [g |-> g, t |-> None, lim |-> FALSE]   \* dangling edge in h
+                   ELSE IF k # None THEN [g |-> g, t |-> k, lim |-> k \in g.present]
                    ELSE IF to \in DOMAIN m
                         THEN [g |-> BindOp(g, left, m[to], a), t |-> m[to], lim |-> BindOk(g, left, m[to], a)]
                    ELSE IF ~NextIdOk(g) THEN [g |-> g, t |-> None, lim |-> FALSE]
@@ -157,7 +158,7 @@ MergeKids(g, h, left, right, m, i, lim) ==
           ELSE LET r == MergeRec(step.g, h, step.t, to, m, lim) IN
                MergeKids(r.g, h, left, right, r.m, i + 1, r.lim)
 MergeOp(g, h, left, right) ==
-  LET r == MergeRec(g, h, left, right, <<>>, TRUE) IN
+  LET r == MergeRec(g, h, left, right, <<>>, left \in g.present /\ right \in h.present) IN
   [g |-> r.g, m |-> r.m, lim |-> r.lim,
    ok |-> Cardinality(DOMAIN r.m) = Cardinality(h.present),
    missed |-> h.present \ DOMAIN r.m]
